@@ -15,7 +15,15 @@
 #ifndef STAGES
 #define STAGES 3     // 1: activation, immediateChangeTo(k), update(); 2: + react/query; 3: + changeTo(k2) and update()
 #endif
+#ifndef PAYLOAD
+#define PAYLOAD 0
+#endif
+struct Pay { int v; };
+#if PAYLOAD
+using M = ffsm2::MachineT<ffsm2::Config::PayloadT<Pay>>;
+#else
 using M = ffsm2::Machine;
+#endif
 template <int I> struct St; struct Rt;
 #if HEAD
 using FSM = M::Root<Rt, STATE_LIST>;
@@ -101,6 +109,21 @@ extern "C" int harness(void) {
   // distinct states are distinct objects
   { int j = nondet_below(NSTATES); if (j != k2) vassert(Acc<0>::of(m, j) != Acc<0>::of(m, k2) || sizeof(St<0>) == 0, 1412); }
   allow_a = k2; allow_b = k2;
+#ifdef FFSM2_ENABLE_PLANS
+  // a request made on behalf of a plan task (payload-free and, where configured, payload-carrying) reaches id k3 as well
+  { int k3 = nondet_below(NSTATES); unsigned char withp = nondet_u8() & 1; (void)withp;
+    allow_a = k2; allow_b = k3; seen_a = seen_b = 0;
+#if PAYLOAD
+    if (withp) m.plan().changeWith(static_cast<ffsm2::StateID>(k2), static_cast<ffsm2::StateID>(k3), Pay{7}); else
+#endif
+    m.plan().change(static_cast<ffsm2::StateID>(k2), static_cast<ffsm2::StateID>(k3));
+    m.succeed(static_cast<ffsm2::StateID>(k2));
+    m.update();
+    vassert(m.activeStateId() == k3, 1413);
+    if (k3 == k2) vassert((seen_a & (K_ENTER | K_EXIT)) == 0 && (seen_a & K_REENTER), 1414);
+    else { vassert((seen_a & K_EXIT) && !(seen_a & K_ENTER), 1414); vassert(seen_b == (K_ENTRYGUARD | K_ENTER), 1414); }
+    allow_a = k3; allow_b = k3; }
+#endif
 #endif
   vwitness(9001);
   return 0;
